@@ -8,6 +8,7 @@
 //!   with_precision <sig> <exp> <p0> <p>
 //!   with_base <newbase> <sig> <exp> <p0> ; with_base_prec <newbase> <sig> <exp> <p0> <p>
 //!   to_decimal|to_binary <sig> <exp> <p0>
+//!   fpc <sig> <exp> <min_precision|->                 FBig::from_parts_const (what the literal macros expand to)
 //!   wb_prec <newbase> <p0>                             the f32 bounds with_base divides + the precision it chooses
 //!   from_f32|from_f64|from_f32_repr|from_f64_repr <bits>
 use core::fmt;
@@ -197,6 +198,19 @@ fn run(op: &str, a: &[&str]) -> String {
                         Err(e) => format!("err {:?}", e),
                     },
                 }
+            });
+        }
+        "fpc" => {
+            // FBig::from_parts_const(sign, significand: DoubleWord, exponent, min_precision): the constructor the
+            // fbig!/dbig! macros expand to for a short significand (the long ones: Repr::new + Context::new + from_repr)
+            // fpc <base> <mode> <sig: signed, magnitude below 2^128> <exp> <min_precision|->
+            let neg = a[2].starts_with('-');
+            let mag = u128::from_str_radix(a[2].trim_start_matches('-'), 16).unwrap();
+            let e = isz(a[3]);
+            let mp = opt(a[4]);
+            return with_float!(a[0], a[1], |R, B| {
+                let v = FBig::<R, B>::from_parts_const(if neg { dashu_base::Sign::Negative } else { dashu_base::Sign::Positive }, mag, e, mp);
+                format!("ok {}", hval(&v))
             });
         }
         "with_base" | "with_base_prec" | "to_decimal" | "to_binary" | "wb_prec" => {
